@@ -10,11 +10,29 @@ both build profiles.
 -/
 import CamVerif.Proofs.C05Eval
 import CamVerif.Proofs.C05Parse
+import CamVerif.Proofs.C05Spell
+import CamVerif.Gen.FormulaTables
 namespace CamVerif.C05
 open CamVerif CamVerif.Formula CamVerif.Formula.Proofs
 open CamVerif.Formula.Spec (toSRes toSVal toSEnv SVal SErr binStrict)
 
 variable {F : Type} [FloatOps F]
+
+/-! ## 0. The model's tables are the tables of the source (regenerated on every run)
+
+`CamVerif.Gen.FormulaTables` is re-emitted from the current `genapi/src/formula.rs` by
+`tools/gen_formula_tables.py` (which also checks the shape of `parse_binop!`, `expr`, `unop`,
+`pow` and the end-of-input assertion of `parse`). -/
+
+/-- **gen_ladder_is_model**: the rows of the `parse_binop!` call chain in the source are the
+model's ladder. -/
+theorem gen_ladder_is_model : Gen.FormulaTables.ladderRows = Formula.ladder := by decide
+
+/-- **gen_functions_is_model**: the function-name arms of `Parser::primary` in the source are the
+model's function table; the constant names are the standard's. -/
+theorem gen_functions_is_model :
+    Gen.FormulaTables.functions = Formula.funcTable ∧
+    Gen.FormulaTables.constants = Spec.constants := by decide
 
 /-! ## 1. The precedence ladder is the standard's table -/
 
@@ -107,6 +125,91 @@ theorem unary_and_ternary_nesting (op : BinOpKind) (hop : op ≠ .pow) (a b c d 
       (by simp [Spec.LegalIdents, ha, hb, hc, hd, he])
   · rw [← p5]; apply parse_print; simp [Spec.LegalIdents, ha, hb, hc, hd]
 
+/-! ### every spelling: redundant parentheses, `NEG(x)`, unary plus, `PI`, `E` -/
+
+/-- **parse_spelling**: the parser reads EVERY spelling of a tree (`Spec.Spells`: parentheses
+where required and anywhere else around a sub-expression, prefix or function form of unary
+minus, unary plus before any unary expression, the constants `PI` and `E`) back as that tree,
+and consumes all tokens. -/
+theorem parse_spelling (e : Expr F) (ts : List (Tok F)) (h : Spec.Spells 0 e ts) :
+    parseToks ts = .ok e :=
+  parseToks_spells h
+
+private theorem printFull_spells (e : Expr F) (hwf : Spec.LegalIdents e) :
+    ∀ c, c ≤ 13 → Spec.Spells c e (Spec.printFull e) := by
+  induction e with
+  | int i => intro c hc; exact .int c i hc
+  | float f => intro c hc; exact .float c f hc
+  | ident s => intro c hc; exact .ident c s hc hwf.1 hwf.2
+  | ite cnd t e ihc iht ihe =>
+    intro c hc
+    simp only [Spec.LegalIdents] at hwf
+    exact .paren c _ _ hc (.ite _ _ _ _ _ _ (ihc hwf.1 1 (by omega)) (iht hwf.2.1 0 (by omega))
+      (ihe hwf.2.2 0 (by omega)))
+  | unOp k x ih =>
+    intro c hc
+    have hx := ih hwf
+    cases k
+    case neg => exact .paren c _ _ hc (.neg 0 x _ (by decide) (hx 11 (by omega)))
+    case not => exact .paren c _ _ hc (.not 0 x _ (by decide) (hx 11 (by omega)))
+    all_goals exact .func c _ _ x _ hc (by decide) (hx 0 (by omega))
+  | binOp op l r ihl ihr =>
+    intro c hc
+    simp only [Spec.LegalIdents] at hwf
+    by_cases hop : op = .pow
+    · subst hop
+      exact .paren c _ _ hc (.pow 0 l r _ _ (by decide) (ihl hwf.1 13 (by omega)) (ihr hwf.2 11 (by omega)))
+    · obtain ⟨p1, p2⟩ := prec_range op hop
+      exact .paren c _ _ hc (.bin 0 op l r _ _ hop (by omega) (ihl hwf.1 _ (by omega))
+        (ihr hwf.2 _ (by omega)))
+
+/-- **parse_printFull**: the fully parenthesised print of every tree is read back as the tree. -/
+theorem parse_printFull (e : Expr F) (h : Spec.LegalIdents e) :
+    parseToks (Spec.printFull e) = .ok e :=
+  parse_spelling e _ (printFull_spells e h 0 (by omega))
+
+/-- **redundant_parentheses_transparent**, **unary_plus_transparent**, **neg_function_form**,
+**constants_parse**: the individual forms, for any spelling `ts` of any tree. -/
+theorem redundant_parentheses_transparent (e : Expr F) (ts : List (Tok F)) (h : Spec.Spells 0 e ts) :
+    parseToks (.sym .lparen :: (ts ++ [.sym .rparen])) = .ok e :=
+  parse_spelling e _ (.paren 0 e ts (by decide) h)
+
+theorem unary_plus_transparent (e : Expr F) (ts : List (Tok F)) (h : Spec.Spells 11 e ts) :
+    parseToks (.sym .plus :: ts) = .ok e :=
+  parse_spelling e _ (.plus 0 e ts (by decide) h)
+
+theorem neg_function_form (x : Expr F) (ts : List (Tok F)) (h : Spec.Spells 0 x ts) :
+    parseToks (.ident "NEG" :: .sym .lparen :: (ts ++ [.sym .rparen])) = .ok (.unOp .neg x) :=
+  parse_spelling _ _ (.func 0 "NEG" .neg x ts (by decide) (by decide) h)
+
+theorem constants_parse :
+    parseToks ([.ident "PI"] : List (Tok F)) = .ok (.float FloatOps.pi) ∧
+    parseToks ([.ident "E"] : List (Tok F)) = .ok (.float FloatOps.e) :=
+  ⟨parse_spelling _ _ (.pi 0 (by decide)), parse_spelling _ _ (.e 0 (by decide))⟩
+
+/-- **parse_consumes_all**: a formula is accepted only when the expression uses up every token
+(tokens left over are a panic, never a silently truncated tree). -/
+theorem parse_consumes_all (ts : List (Tok F)) (e : Expr F) (h : parseToks ts = .ok e) :
+    pExpr (ts.length + 1) ts = .ok (e, []) := by
+  unfold parseToks at h
+  cases hp : pExpr (ts.length + 1) ts with
+  | ok r =>
+    obtain ⟨e', rest⟩ := r
+    rw [hp] at h
+    cases rest with
+    | nil => simp only [Res.bind_ok, Res.ok.injEq] at h; rw [h]
+    | cons t r => simp at h
+  | err x => rw [hp] at h; simp at h
+  | panic => rw [hp] at h; simp at h
+
+example : parseToks (F := F) [.sym .plus, .sym .minus, .sym .lparen, .sym .lparen, .ident "NEG",
+    .sym .lparen, .ident "PI", .sym .rparen, .sym .rparen, .sym .star, .int 2, .sym .rparen] =
+    .ok (.unOp .neg (.binOp .mul (.unOp .neg (.float FloatOps.pi)) (.int 2))) :=
+  parse_spelling _ _ (.plus 0 _ _ (by decide) (.neg 11 _ _ (by decide) (.paren 11 _ _ (by decide)
+    (.bin 0 .mul _ _ _ _ (by decide) (by decide)
+      (.paren _ _ _ (by decide) (.func 0 "NEG" .neg _ _ (by decide) (by decide) (.pi 0 (by decide))))
+      (.int _ 2 (by decide))))))
+
 /-! ### characters → tokens (not proved in general: tied by the differential) -/
 
 /-- Spelling of a token list with single blanks (numbers in decimal).  Float tokens have no
@@ -153,7 +256,18 @@ example : @parseChars Unit unitFloatOps "SGN(-X) &amp;&amp; 2 ** 3 ** 2 <> .5".t
   decide +kernel
 
 example : @parseChars Unit unitFloatOps "1 +".toList = .panic ∧
-    @parseChars Unit unitFloatOps "9223372036854775808".toList = .panic := by
+    @parseChars Unit unitFloatOps "9223372036854775808".toList = .panic ∧
+    -- tokens after the expression are refused, not ignored
+    @parseChars Unit unitFloatOps "1 2".toList = .panic ∧
+    @parseChars Unit unitFloatOps "(1)) + 5".toList = .panic := by
+  decide +kernel
+
+/- exponent literals, the `0X` prefix, hex literals with bit 63 set, `+-` -/
+example : @parseChars Unit unitFloatOps "2 * 1e3 + 1.5E-3".toList =
+      .ok (.binOp .add (.binOp .mul (.int 2) (.float ())) (.float ())) ∧
+    @parseChars Unit unitFloatOps "0X10 = 0xFFFFFFFFFFFFFFFF".toList =
+      .ok (.binOp .eq (.int 16) (.int (-1))) ∧
+    @parseChars Unit unitFloatOps "+-1".toList = .ok (.unOp .neg (.int 1)) := by
   decide +kernel
 
 /-! ## 3. Evaluation refines the reference evaluator -/
